@@ -568,7 +568,7 @@ Lemma resync_section_cases w ip o ocl fl :
       if resync_skip e k then resync_section w ip o ocl fl = (w, SOk) else
       if pod_running w (Keys.ko_ns k) (Keys.ko_pod k) (e_uid e) then resync_section w ip o ocl fl = (w, SOk) else
       (∃ w1 r, same_env w w1 ∧ w_ipam w1 = w_ipam w ∧ resync_section w ip o ocl fl = (w1, r) ∧
-               (r = SStuck ∨ f_cloud fl = Some 0%nat)) ∨
+               (r = SStuck ∨ f_cloud fl ≠ None)) ∨
       (∃ w1, pre_cleared w w1 (e_key e) ∧
              resync_section w ip o ocl fl =
              ((unbind_any w1 k (e_policy e) o fl).1, squash (unbind_any w1 k (e_policy e) o fl).2))
@@ -576,18 +576,30 @@ Lemma resync_section_cases w ip o ocl fl :
 Proof.
   unfold resync_section. destruct (i_alloc (w_ipam w) !! ip) as [e|]; [|done]. cbv zeta.
   destruct (resync_skip _ _); [done|]. destruct (pod_running _ _ _ _); [done|].
-  destruct (w_provider w && negb (Keys.is_empty (e_node e)))%bool.
-  - destruct (bool_decide (f_cloud fl = Some 0%nat)) eqn:Ec.
-    + left. exists w, SOk. apply bool_decide_eq_true in Ec. split; [apply same_env_refl|]. split; [done|]. split; [done|by right].
-    + destruct (reserve_ip (w_ipam (cloud_unassign w ip (e_node e))) (e_key e) (e_key e) free_entry_attr ocl None)
-        as [s' ra] eqn:Er. cbn [fst snd].
-      assert (ra = AStuck ∨ ra ≠ AStuck) as [-> |Hra] by (destruct ra; auto).
-      * left. exists (cloud_unassign w ip (e_node e)), SStuck. split; [apply same_env_cloud_unassign|]. split; [done|]. split; [done|by left].
-      * right. exists (set_ipam (cloud_unassign w ip (e_node e)) s'). split.
-        { split; [eapply same_env_trans; [apply same_env_cloud_unassign|apply same_env_set_ipam]|].
-          right. exists ocl, ra. done. }
-        unfold unbind_any, squash. by destruct ra.
-  - right. exists w. split; [split; [apply same_env_refl|by left]|]. reflexivity.
+  destruct (w_provider w && _)%bool.
+  2:{ right. exists w. split; [split; [apply same_env_refl|by left]|]. reflexivity. }
+  match goal with |- context [if negb ?c then _ else _] => destruct c end; cbn [negb].
+  2:{ left. exists w, SStuck. split_and!; [apply same_env_refl|done|done|by left]. }
+  match goal with |- context [unassign_loop w ?oun 0 fl] => set (oun0 := oun) end.
+  destruct (unassign_loop_env fl oun0 w 0) as [Henv Hip].
+  destruct (unassign_loop w oun0 0 fl) as [w1 [| |]]; cbn [fst] in Henv, Hip.
+  - match goal with |- context [if negb ?c then _ else _] => destruct c end; cbn [negb].
+    2:{ left. exists w, SStuck. split_and!; [apply same_env_refl|done|done|by left]. }
+    rewrite Hip.
+    match goal with |- context [reserve_ip (w_ipam w) _ _ _ ?ocl0 None] => set (ocl1 := ocl0) end.
+    destruct (reserve_ip (w_ipam w) (e_key e) (e_key e) free_entry_attr ocl1 None) as [s' ra] eqn:Er. cbn [fst snd].
+    assert (ra = AStuck ∨ ra ≠ AStuck) as [-> |Hra] by (destruct ra; auto).
+    + left. exists w1, SStuck. split; [done|]. split; [done|]. split; [done|by left].
+    + right. exists (set_ipam w1 s'). split.
+      { split; [eapply same_env_trans; [exact Henv|apply same_env_set_ipam]|].
+        right. exists ocl1, ra. done. }
+      unfold unbind_any, squash. by destruct ra.
+  - destruct (f_cloud fl) as [j|] eqn:Efc.
+    2:{ left. exists w, SStuck. split_and!; [apply same_env_refl|done|done|by left]. }
+    destruct (_ || _)%bool.
+    + left. exists w1, SOk. split_and!; [done|done|done|by right].
+    + left. exists w, SStuck. split_and!; [apply same_env_refl|done|done|by left].
+  - left. exists w1, SStuck. split_and!; [done|done|done|by left].
 Qed.
 
 (** ** liveness of one resync item *)
@@ -752,7 +764,7 @@ Proof.
     rewrite Hk, (parse_pod_key q Wq) in Hrn. change (pod_running w (pd_ns q) (pd_name q) (e_uid e1) = true) in Hrn. congruence. }
   destruct Hc as [(w1 & r1 & _ & _ & Hres1 & [-> |Hf])|(w1 & Hpre & Hres1)].
   { rewrite Hres in Hres1. by simplify_eq. }
-  { done. }
+  { by destruct Hf. }
   rewrite Hres in Hres1. injection Hres1 as -> ->.
   destruct (pre_cleared_facts w w1 (e_key e) Hi Hpre) as (Hi1 & Hsk & Hc1 & Hall). destruct Hpre as [Henv1 _].
   set (k := Keys.parse_key (e_key e)) in *.
@@ -934,15 +946,13 @@ Proof.
                (keeps (w_ipam w) y (Keys.ko_key k) ∧ keeps (w_ipam s1.1) y (Keys.ko_key k))) as Hs1.
   { unfold s1. destruct (_ && _)%bool; [|by left].
     destruct (bool_decide _); [by left|].
-    destruct (reserve_ip (w_ipam (cloud_unassign w ip (e_node e0))) (e_key e0) (e_key e0) free_entry_attr ocl None)
-      as [s' ra] eqn:Er. cbn [fst snd].
-    pose proof (reserve_ip_cleared _ _ _ _ _ _ _ Er) as Hy.
-    assert (∀ y, i_alloc s' !! y = i_alloc (w_ipam w) !! y ∨
-                 (keeps (w_ipam w) y (Keys.ko_key k) ∧ keeps s' y (Keys.ko_key k))) as Hy'.
-    { intros y. destruct (Hy y) as [?|(e & e' & He & Hk & He' & Hc)]; [by left|]. right. split.
-      - exists e. split; [done|congruence].
-      - exists e'. split; [done|]. destruct Hc as [-> _]. done. }
-    destruct ra; cbn [fst set_ipam w_ipam]; try done. intros y. by left. }
+    match goal with |- context [update_attr ?s0 ?K0 ip ?a0 ?f0] => destruct (update_attr s0 K0 ip a0 f0) as [s' ra] eqn:Er end.
+    cbn [fst snd].
+    destruct ra; cbn [fst set_ipam w_ipam cloud_unassign]; try (intros y; by left).
+    apply update_attr_spec in Er as [(_ & e & He & Hk & Ha & _)|[? _]]; [|done].
+    cbn [cloud_unassign w_ipam] in *. intros y. rewrite Ha.
+    destruct (decide (y = ip)) as [->|Hne]; [|left; by apply lookup_insert_ne].
+    right. split; [exists e; split; [done|congruence]|]. eexists. split; [rewrite Ha; apply lookup_insert|]. done. }
   destruct s1 as [w1 [| |]]; cbn [fst] in *; try (intros y; destruct (Hs1 y); [by left|right; by left]).
   destruct (release (w_ipam w1) (Keys.ko_key k) ip (bool_decide (f_store fl = Some 0%nat))) as [s2 r2] eqn:Er.
   cbn [fst set_ipam w_ipam].
